@@ -57,6 +57,14 @@ class CvxStatus:
         other = b if a is self else a
         if other is None:
             return name == "ne"
+        dotted = getattr(other, "dotted", None)
+        if isinstance(dotted, str) and dotted.startswith("cvxpy."):
+            # cvxpy's status constants are these strings
+            consts = {"OPTIMAL": "optimal", "INFEASIBLE": "infeasible", "UNBOUNDED": "unbounded", "OPTIMAL_INACCURATE": "optimal_inaccurate",
+                      "INFEASIBLE_INACCURATE": "infeasible_inaccurate", "UNBOUNDED_INACCURATE": "unbounded_inaccurate"}
+            key = dotted.split(".")[-1]
+            if key in consts:
+                other = consts[key]
         if not isinstance(other, str):
             raise Unsupported("status compared with %r" % (other,))
         if other == "optimal":
